@@ -170,6 +170,10 @@ structure SubRequest where
   hasSubResolver : Bool
   /-- `isinstance(runtime, SubscriptionRuntime)` -/
   streamRuntime : Bool
+  /-- the `@skip` / `@include` conditions of the root selection can be evaluated (`collect_fields` does not fail) -/
+  rootCollectOk : Bool
+  /-- the arguments of the subscription field can be coerced (`argument_values` does not fail) -/
+  argsOk : Bool
   events : List Event
 
 inductive SubOutcome where
@@ -184,9 +188,11 @@ def subscribe (r : SubRequest) : SubOutcome :=
   else if !r.varsOk then .refused "VariablesCoercionError" false 0          -- coerce_variable_values (of a subscription)
   else if !r.streamRuntime then .refused "RuntimeError" false 0             -- "Runtime of type … doesn't support subscriptions."
   -- create_source_event_stream: fields = executor.collect_fields(root_type, selections)
+  else if !r.rootCollectOk then .refused "ExecutionError" false 0           -- except ResolverError: raise ExecutionError
   else if (collectSels r.root []).length ≠ 1 then .refused "ExecutionError" false 0   -- "… must specify only one field."
   else if !r.fieldDefined then .refused "RuntimeError" false 0              -- "No field definition found …"
   else if !r.hasSubResolver then .refused "RuntimeError" false 0            -- "… should provide a subscription resolver."
+  else if !r.argsOk then .refused "ExecutionError" false 0                  -- except CoercionError: raise ExecutionError
   else
     let c := Stream.collect true (r.events.length + 1) ⟨r.events, ⟨[]⟩, 0, 0⟩
     .stream c.1 c.2.pulls
